@@ -27,10 +27,49 @@ fn response_objects(r: &mut Rng, req: &[u8], want_measurements: bool) -> Vec<u8>
                 let _ = i;
             }
             let start = r.below(20) as u8;
-            ra::B { bytes: vec![] }
+            let mut b = ra::B { bytes: vec![] }
                 .range8(30, 1, start, start + n - 1, &data)
-                .range8(1, 2, 0, 1, &[0x81, 0x01])
-                .bytes
+                .range8(1, 2, 0, 1, &[0x81, 0x01]);
+            // every way an object header can address its objects: 8- and 16-bit ranges (indices beyond 255 too),
+            // 8- and 16-bit index prefixes, for the static and event groups of each measurement type
+            for _ in 0..r.range(0, 3) {
+                // (group, variation, object size) - statics then events
+                let statics = [(1u8, 2u8, 1usize), (3, 2, 1), (10, 2, 1), (20, 1, 5), (21, 1, 5), (30, 1, 5), (40, 1, 5)];
+                let events = [(2u8, 1u8, 1usize), (4, 1, 1), (11, 1, 1), (22, 1, 5), (23, 1, 5), (32, 1, 5), (42, 1, 5)];
+                let k = r.range(1, 3) as usize;
+                let obj = |r: &mut Rng, size: usize| -> Vec<u8> {
+                    let mut o = vec![0x01u8];
+                    for _ in 1..size {
+                        o.push(r.u8() & 0x7F);
+                    }
+                    o
+                };
+                match r.below(4) {
+                    0 => {
+                        let (g, v, sz) = *r.pick(&statics);
+                        let start = r.below(200) as u8;
+                        let data: Vec<u8> = (0..k).flat_map(|_| obj(r, sz)).collect();
+                        b = b.range8(g, v, start, start + k as u8 - 1, &data);
+                    }
+                    1 => {
+                        let (g, v, sz) = *r.pick(&statics);
+                        let start = *r.pick(&[0u16, 255, 256, 1000, 65_000]);
+                        let data: Vec<u8> = (0..k).flat_map(|_| obj(r, sz)).collect();
+                        b = b.range16(g, v, start, start + k as u16 - 1, &data);
+                    }
+                    2 => {
+                        let (g, v, sz) = *r.pick(&events);
+                        let items: Vec<(u8, Vec<u8>)> = (0..k).map(|_| (r.u8(), obj(r, sz))).collect();
+                        b = b.prefixed8(g, v, &items);
+                    }
+                    _ => {
+                        let (g, v, sz) = *r.pick(&events);
+                        let items: Vec<(u16, Vec<u8>)> = (0..k).map(|_| (r.u16(), obj(r, sz))).collect();
+                        b = b.prefixed16(g, v, &items);
+                    }
+                }
+            }
+            b.bytes
         }
         ra::F_SELECT | ra::F_OPERATE | ra::F_DIRECT_OPERATE => req[2..].to_vec(), // faithful echo
         ra::F_DELAY_MEASURE => ra::B { bytes: vec![] }.count8(52, 2, 1, &[0, 0]).bytes,
